@@ -20,7 +20,7 @@ Cases == { [s |-> "Ent", av |-> EntDoc, specs |-> { {}, {S(<<"id">>)}, {S(<<"nes
                                                      {S(<<"u", "vt.Leaf", "a">>)}, {S(<<"leaf">>)}, {S(<<"*", "a">>)}, {S(<<"leaf", "a">>), S(<<"t">>)} }] }
 VARIABLES case, spec, doc
 Init == case \in Cases /\ spec \in case.specs /\ doc = None
-Next == doc = None /\ doc' \in DocVariants([k |-> "ref", n |-> case.s], case.av) /\ UNCHANGED <<case, spec>>
+Next == doc = None /\ doc' \in {StripNulls(d) : d \in DocVariants([k |-> "ref", n |-> case.s], case.av)} /\ UNCHANGED <<case, spec>>
 Spec == Init /\ [][Next]_<<case, spec, doc>>
 Ty == [k |-> "ref", n |-> case.s]
 Set == doc # None
